@@ -51,6 +51,7 @@ THEOREMS = [
     'Px.Codec.C15_parse_build_req_chunked',
     'Px.Codec.C15_res_headers',
     'Px.Codec.C15_parse_build_resp',
+    'Px.Codec.C15_parse_build_resp_headerless',
     'Px.Codec.C15_build_parse_req',
     'Px.Codec.C15_parse_keys_inv',
     'Px.Codec.C15_build_parse_headers_same',
